@@ -26,8 +26,41 @@ Theorem C01_stream_numbersdirect c crit t0 off ops :
     /\ concat files = written ops.
 Proof. exact (numbersdirect_stream c crit t0 off ops). Qed.
 
+Require Import FL.Flw.NumRestart FL.Flw.TsTime FL.Flw.TsNames FL.Flw.TsInv FL.Flw.TsRun FL.Flw.TsTheorems FL.Flw.TsReader FL.Oracles.ReaderOrder.
+(* Timestamps naming (rCURRENT; a closed file is named by the second in which it was started, made collision-free by
+   .restart-NNNN): every criterion, buffer capacity, append flag, local time or UTC, every history in which the clock does not go
+   backwards, up to the year 9999: the closed files - named by pairwise distinct keys (second, position within the second) that
+   increase in closing order - and rCURRENT hold exactly the written bytes (hypothesis tag_free: neither the fixed name part nor the
+   suffix contains ".restart-"; shown necessary by a counterexample in Flw/TsTheorems.v) *)
+Theorem C01_stream_timestamps c crit t0 off ops :
+  tscfg c crit -> tag_free c -> Forall basic_op ops -> Forall tick_ok ops ->
+  (0 <= t0 + ts_e c off)%Z -> (t0 + elapsed ops + ts_e c off < sec_max)%Z -> (N.of_nat (length ops) <= usize_max)%N ->
+  let f := wfs (s_w (fst (run (sys0 t0 off) (OStart c :: ops ++ [OStop])))) in
+  (names f = [] /\ written ops = [])
+  \/ exists keys closed cur,
+       ts_view c (ts_e c off) f keys closed cur
+       /\ concat closed ++ cur = written ops
+       /\ keys_ok keys
+       /\ (forall k, In k keys -> (t0 <= fst k <= t0 + elapsed ops)%Z).
+Proof. exact (timestamps_stream c crit t0 off ops). Qed.
+
+(* ... and the reader of the executable oracle (files ordered by parsed infix) reads them in exactly that order *)
+Theorem C01_reader_timestamps c crit t0 off ops :
+  tscfg c crit -> tag_free c -> not_gz c -> Forall basic_op ops -> Forall tick_ok ops ->
+  (0 <= t0 + ts_e c off)%Z -> (t0 + elapsed ops + ts_e c off < sec_max)%Z -> (N.of_nat (length ops) <= usize_max)%N ->
+  let x := fst (run (sys0 t0 off) (OStart c :: ops ++ [OStop])) in
+  concat (family_in_order c (snap_of x)) = written ops
+  /\ ((names (wfs (s_w x)) = [] /\ family_in_order c (snap_of x) = [])
+      \/ exists keys closed cur, ts_view c (ts_e c off) (wfs (s_w x)) keys closed cur /\ keys_ok keys
+                                 /\ family_in_order c (snap_of x) = closed ++ [cur]).
+Proof. exact (timestamps_reader c crit t0 off ops). Qed.
+
 Check C01_stream_numbers.
 Print Assumptions C01_stream_numbers.
 Print Assumptions C01_oracle_sound.
 Check C01_stream_numbersdirect.
 Print Assumptions C01_stream_numbersdirect.
+Check C01_stream_timestamps.
+Print Assumptions C01_stream_timestamps.
+Check C01_reader_timestamps.
+Print Assumptions C01_reader_timestamps.
